@@ -42,6 +42,7 @@ func valBuild(name string, seed uint64) *lib.Build {
 		b.PutFile("w39/g.bin", rb(lib.BS+5))
 	case "nested":
 		b.PutDir("another-hollow")
+		b.PutFile("dir with space/ünï çødé 日本.bin", rb(lib.BS+7))
 		b.PutFile("top.bin", rb(3*lib.BS+100))
 		b.PutFile("sub/one.bin", rb(lib.BS))
 		b.PutFile("sub/deep/two.bin", rb(lib.BS+1))
